@@ -49,14 +49,20 @@ def rnd_period(rng):
     return rng.choice([1.0, 2.0, 0.5, 360.0, 2 * math.pi, 1e-3, 3.0, 0.1, 7.25, 1e6, rng.uniform(0.01, 50)])
 
 
-def polygon(rng):
-    """random simple (star-shaped) polygon, either orientation, random start vertex"""
+def polygon(rng, scale=1.0, offset=(0.0, 0.0)):
+    """random simple (star-shaped) polygon, either orientation, random start vertex; optionally scaled and moved far
+    from the origin (polygons that are small compared with their distance from the origin, short closing edges)"""
     n = rng.randint(3, 10)
     cx, cy = rng.uniform(-2, 2), rng.uniform(-2, 2)
     angs = sorted(rng.uniform(0, 2 * math.pi) for _ in range(n))
     # keep angular gaps below pi so the star-shaped polygon is simple and contains its centre
     angs = [2 * math.pi * (i + rng.uniform(0.1, 0.9)) / n for i in range(n)]
     vs = [(cx + r * math.cos(a), cy + r * math.sin(a)) for a, r in ((a, rng.uniform(0.3, 2.0)) for a in angs)]
+    if rng.random() < 0.3:
+        # a very short closing edge: last vertex close to (but distinct from) the first one
+        t = rng.choice([1e-3, 1e-5, 1e-7])
+        vs[-1] = (vs[0][0] + t * (vs[-1][0] - vs[0][0]), vs[0][1] + t * (vs[-1][1] - vs[0][1]))
+    vs = [(offset[0] + scale * x, offset[1] + scale * y) for x, y in vs]
     k = rng.randrange(n)
     vs = vs[k:] + vs[:k]
     if rng.random() < 0.5:
@@ -274,14 +280,17 @@ def gen_cases(ctx, n):
 
         # ---------------- polygon mask -------------------------------------------------------------------------
         if it % 4 == 0:
-            vs = polygon(rng)
+            sc = rng.choice([1.0, 1.0, 1e-3, 1e3, 5.0])
+            off = rng.choice([(0.0, 0.0), (0.0, 0.0), (1e3 * sc, -2e3 * sc), (1e6 * sc, 1e6 * sc), (-3e5 * sc, 10.0 * sc)])
+            vs = polygon(rng, sc, off)
+            ctx.count('mask-polygon-scale-%g-offset-ratio-%g' % (sc, abs(off[0]) / sc))
             st, mask = call(cm.PolygonMask2D, vs)
             if st != 'ok':
                 ctx.fail('C13:mask:ctor', 'PolygonMask2D rejected a simple polygon: %s' % mask, dict(vertices=vs))
             else:
                 for _ in range(6):
-                    px, py = rng.uniform(-4.5, 4.5), rng.uniform(-4.5, 4.5)
-                    if edge_distance(px, py, vs) < 1e-6:
+                    px, py = off[0] + sc * rng.uniform(-4.5, 4.5), off[1] + sc * rng.uniform(-4.5, 4.5)
+                    if edge_distance(px, py, vs) < 1e-6 * sc + 1e-9 * max(abs(off[0]), abs(off[1])):
                         ctx.count('mask-guard-band-skipped')
                         continue
                     got = mask(px, py)
